@@ -173,7 +173,7 @@ class Summ:
             for d in s.get('c') or ():
                 if d.get('k') != 'VarDecl':
                     continue
-                if not self.subst and self.env.is_alias(d):
+                if not self.subst and self.env.is_alias(d) and self.env.pure_init(d):
                     continue        # only a name for its initialiser: substituted into its uses by canon()
                 if d['loc'] in self.mutated or not isinstance(d.get('init'), dict) or d.get('bindings') or not self.subst:
                     init = self.term(d['init']) if isinstance(d.get('init'), dict) else None
